@@ -21,9 +21,9 @@ def rows(rnd):
         if m.get('origin'): extra=' — '+m['origin']
         out.append('| %s | %s | %s%s |'%(k,m['property'],clause,extra))
     return out
-r1,r2,r3,r4,r5,r6,r7=[rows(i) for i in range(1,8)]
+r1,r2,r3,r4,r5,r6,r7,r8=[rows(i) for i in range(1,9)]
 def nm(r): return len(r),sum('missed at first' in x for x in r)
-(n1,m1),(n2,m2),(n3,m3),(n4,m4),(n5,m5),(n6,m6),(n7,m7)=[nm(r) for r in (r1,r2,r3,r4,r5,r6,r7)]
+(n1,m1),(n2,m2),(n3,m3),(n4,m4),(n5,m5),(n6,m6),(n7,m7),(n8,m8)=[nm(r) for r in (r1,r2,r3,r4,r5,r6,r7,r8)]
 own=open('/verif/mutants/RESULTS.txt').read().strip().split('\n')
 ownrows=[]
 for l in own:
@@ -126,6 +126,19 @@ with the instance under test.
 | seed | property | detected by (scenario / clause) |
 |---|---|---|
 '''%(n7,n7-m7,m7)+'\n'.join(r7)+'''
+
+**Round 8** (%d changes, two per property; the authors were asked not for a planted defect but for
+*real work* — a refactor, a performance change, a robustness change or a small feature of 10-60
+lines in the code the property is about, carried out properly, with one honest mistake in it: a
+helper right for one caller and wrong for the other, a cache not invalidated by one mutator, a fast
+path that forgets a side effect, a validation that rejects something legal, a unified path that
+loses a special case): %d detected as the checks stood, %d missed at first. One delivered patch
+had been swapped with another author's through a shared `git stash`; it was recovered from the
+dangling stash commit and validated like the others.
+
+| seed | property | detected by (scenario / clause) |
+|---|---|---|
+'''%(n8,n8-m8,m8)+'\n'.join(r8)+'''
 
 What changed in response, as a rule rather than case by case: every property whose code handles a
 length, a count or an index now has a *scale* scenario next to its small-scope product, in which
